@@ -159,7 +159,17 @@ fn exec_f(sh: &Shared, e: &Value) -> Reply {
             Ok(())
         }
         "FDrop" => {
-            drop(t[w].take().ok_or("drop of empty slot")?);
+            let h = t[w].take().ok_or("drop of empty slot")?;
+            if e["how"] == "unwind" {
+                // dropped by a thread that is unwinding from a panic (caught here)
+                let r = std::panic::catch_unwind(std::panic::AssertUnwindSafe(move || {
+                    let _h = h;
+                    std::panic::resume_unwind(Box::new(0u8)); // a panic in flight, without the hook's message
+                }));
+                debug_assert!(r.is_err());
+            } else {
+                drop(h);
+            }
             Ok(())
         }
         "Give" => Ok(()),
@@ -444,7 +454,7 @@ impl World {
         }
         for w in 0..self.nfw {
             if self.sh.table.lock().unwrap()[w].is_some() {
-                let _ = self.apply(&json!({"op":"FDrop","t":1,"w":w+1}));
+                let _ = self.apply(&json!({"op":"FDrop","t":1,"w":w+1,"how":"plain"}));
             }
         }
         let counts_after: Vec<usize> = self.origs.iter().map(Arc::strong_count).collect();
@@ -565,7 +575,7 @@ fn trace(out: &str, seed: u64, events: usize, nfw: usize, nthreads: usize) {
                 let s = *rng.pick(&used);
                 let t = own[s];
                 let mut c = vec![
-                    json!({"op":"FDrop","t":t,"w":s+1}),
+                    json!({"op":"FDrop","t":t,"w":s+1,"how": if rng.chance(1, 3) { "unwind" } else { "plain" }}),
                     json!({"op":"FWake","t":t,"w":s+1}),
                     json!({"op":"FWakeByRef","t":t,"w":s+1}),
                 ];
@@ -629,7 +639,7 @@ fn trace(out: &str, seed: u64, events: usize, nfw: usize, nthreads: usize) {
         }
         for s in 0..nfw {
             if w.occupied()[s] {
-                let e = json!({"op":"FDrop","t":own[s],"w":s+1});
+                let e = json!({"op":"FDrop","t":own[s],"w":s+1,"how":"plain"});
                 let _ = w.apply(&e);
                 let mut ev = e.clone();
                 ev.as_object_mut().unwrap().insert("proj".into(), w.proj());
